@@ -341,9 +341,9 @@ CHECKS["C01"] = dict(
           "store byte-identical, Received(receiver) == Queued(sender) == unique payload size. Cases where the initiator does not complete are counted as trivial. "
           "distinct = (direction, scenario, store config, final statuses, cuts, size class)."),
     parts=[dict(test="TestC01E2E", quick=60, thorough=3000, per_shard=4, watchdog=180, max_shards=10),
-           dict(test="TestC01Late", quick=48, thorough=2400, per_shard=12)],
+           dict(test="TestC01Late", quick=96, thorough=2400, per_shard=12)],
     floors=dict(any={"TestC01E2E.initiator_completed": 36, "TestC01E2E.limit_raises": 5, "TestC01E2E.finalization_rounds": 5, "TestC01E2E.completed_through_restart": 2,
-                     "TestC01E2E.blocks": 300, "TestC01E2E.restarts_before_first_block": 4, "TestC01Late.initiator_completed": 24, "TestC01Late.late_update_during_complete_send": 6, "TestC01Late.two_round_finalizations": 12}),
+                     "TestC01E2E.blocks": 300, "TestC01E2E.restarts_before_first_block": 4, "TestC01Late.initiator_completed": 48, "TestC01Late.late_update_during_complete_send": 12, "TestC01Late.two_round_finalizations": 24}),
     assumptions=["libp2p mocknet and in-memory blockstores stand in for real networks/disks; graphsync is the only transport"],
 )
 
